@@ -35,11 +35,18 @@ class CoqError(Exception):
         self.file, self.line, self.output = file, line, output
 
 
-def _lock():
+def _lock(name='project'):
+    """Advisory lock.  'project' guards (re)generation of _CoqProject/Makefile (short); builds take a lock per
+    property directory so that one property's long build does not block the others."""
     os.makedirs(BUILD, exist_ok=True)
-    f = open(os.path.join(BUILD, 'coq.lock'), 'w')
+    f = open(os.path.join(BUILD, 'coq.%s.lock' % name), 'w')
     fcntl.flock(f, fcntl.LOCK_EX)
     return f
+
+
+def _lock_name(targets):
+    dirs = sorted({t.split('/')[0] for t in targets if not t.startswith('Common/')})
+    return dirs[0] if len(dirs) == 1 else ('project-wide' if dirs else 'Common')
 
 
 def strip_comments(src):
@@ -119,6 +126,10 @@ def make(targets, timeout=1500, jobs=16, keep_going=False):
     lk = _lock()
     try:
         ensure_project()
+    finally:
+        lk.close()
+    lk = _lock(_lock_name(list(targets)))
+    try:
         cmd = ['timeout', str(timeout), 'make', '-j%d' % jobs] + (['-k'] if keep_going else []) + list(targets)
         r = subprocess.run(cmd, cwd=COQ_DIR, stdout=subprocess.PIPE, stderr=subprocess.STDOUT, text=True)
     finally:
@@ -215,7 +226,7 @@ def proof_step(property_file, allowed_axioms=(), timeout=1500):
     try:
         if targets:
             make(targets, timeout=timeout)
-        lk = _lock()
+        lk = _lock(property_file.split('/')[0])
         try:
             out = coqc(property_file, timeout=timeout)
         finally:
